@@ -184,7 +184,7 @@ pub fn run_job(job: &Value) -> Value {
             // an optional second spelling of the pattern, run through the same calls (law pairs, C20)
             if let (Some(p2), Some(f2)) = (cps_to_string(&job["pat2"]), cps_to_string(&job["flags2"])) {
                 regexml::verif_take_cutoffs();
-                match compile(&p2, &f2, job["x2"].as_bool().unwrap_or(true), false) {
+                match compile(&p2, &f2, job["x2"].as_bool().unwrap_or(true), job["unopt2"].as_bool().unwrap_or(false)) {
                     Err(e) => {
                         out["compile2"] = e;
                         out["res2"] = json!([]);
